@@ -109,7 +109,7 @@ def structured_program(draw, pools, cpus=None, align_data=True, repeats=True):
     pool = pools[cpu]
     p = Prog(cpu)
     if align_data is None:
-        align_data = draw(_st.integers(0, 3)) != 0      # sometimes code follows odd-length data unaligned
+        align_data = draw(_st.integers(0, 2)) != 0      # sometimes code follows odd-length data unaligned
     al = ["  .align 64"] if align_data else []
     p.add(".%s" % CPU_FILES.get(cpu, cpu), "header")
     if draw(_st.booleans()):
@@ -181,6 +181,10 @@ def structured_program(draw, pools, cpus=None, align_data=True, repeats=True):
             p.add(".include \"%s\"" % name, "includedir")
         else:
             p.add("  ; a comment line", "top")
+    if not align_data:
+        # the shape this mode exists for: an instruction directly after odd-length data (alignment padding)
+        p.add("  .db 0x%02x" % draw(_st.integers(0, 255)), "top")
+        p.add("  " + draw(_st.sampled_from(pool)), "top")
     # forward reference target at the end
     if draw(_st.booleans()):
         p.add("  .dc32 lbl_end", "top")
